@@ -80,10 +80,13 @@ pub fn judge<K: Kit>(prop: PathProp, ctx: &Ctx, b: &mut Batch, kit: &K, sc: &Sce
     };
     let start_state = kit.unflat(&sc.problem.start);
     let start_valid = eval.valid(&start_state, &sc.problem.start);
+    // with several start states the invalid-start error is only *required* when none is valid
+    // (the library looks at the first entry; a planner may legitimately use any valid one)
+    let any_extra_valid = sc.problem.extra_starts.iter().any(|e| eval.valid(&kit.unflat(e), e));
 
     if prop == PathProp::C01 {
         // invalid start must be reported as such by an initialised planner
-        if !start_valid {
+        if !start_valid && !any_extra_valid {
             b.count("invalid_start_cases", 1);
             let roadmap_nonempty = match d.snapshot() {
                 Snap::Roadmap(r) => !r.is_empty(),
@@ -247,6 +250,7 @@ pub fn run(prop: PathProp, tier: Tier, seed: u64) -> i32 {
             });
             let mut sc = make_scenario(&mut r, &cfg);
             odd_start(prop, &mut r, &mut sc, &mut b);
+            multi_start(prop, &mut r, &mut sc, &mut b);
             run_case(prop, &ctx, &mut b, &sc);
             i += shards;
         }
@@ -299,6 +303,63 @@ pub fn run(prop: PathProp, tier: Tier, seed: u64) -> i32 {
         PathProp::C05 => ("cases = planner runs with step sizes / radii from 1e-3x to 10x the space diameter; consecutive path states must be within the configured limit in the space's own metric; distinct+non-trivial = distinct returned paths with >= 3 states", vec!["tolerance: rounding + 5e-6 per unit weight of SO3 components"]),
     };
     ctx.finish(rule, &assumptions, json!({"cases": n_cases}))
+}
+
+/// Problem definitions with two or three start states (C01, C02, C03, C05). The extra entries
+/// are valid states, states deep inside an obstacle, or states *marginally* inside one (found by
+/// bisection between an invalid and a valid state, so that a motion leaving it is valid from the
+/// first interpolated state on). Whatever a planner makes of the extra entries, a returned path
+/// must satisfy the path properties; an invalid entry must never appear on it.
+fn multi_start(prop: PathProp, r: &mut Sm, sc: &mut Scenario, b: &mut Batch) {
+    if !matches!(prop, PathProp::C01 | PathProp::C02 | PathProp::C03 | PathProp::C05) || !r.bool(0.12) {
+        return;
+    }
+    let spec = sc.problem.spec.clone();
+    with_kit!(spec, K, kit => {
+        let Ok(ev) = WorldEval::<K>::new(&kit, &sc.problem.world) else { return };
+        let cands: Vec<Vec<f64>> = (0..24).map(|_| crate::world::rand_state(r, &spec)).collect();
+        let valid: Vec<&Vec<f64>> = cands.iter().filter(|c| ev.valid(&kit.unflat(c), c)).collect();
+        let invalid: Vec<&Vec<f64>> = cands.iter().filter(|c| !ev.valid(&kit.unflat(c), c)).collect();
+        let n_extra = 1 + r.below(2);
+        for _ in 0..n_extra {
+            let kind = r.below(4);
+            let e: Option<Vec<f64>> = match kind {
+                0 if !valid.is_empty() => Some((*r.pick(&valid)).clone()),
+                1 if !invalid.is_empty() => Some((*r.pick(&invalid)).clone()),
+                2 if !valid.is_empty() && !invalid.is_empty() => {
+                    // marginally inside: bisect towards the boundary, keep the invalid end
+                    let (bi, gi) = (r.below(invalid.len()), r.below(valid.len()));
+                    let (mut bad, mut good) = (kit.unflat(invalid[bi]), kit.unflat(valid[gi]));
+                    for _ in 0..(12 + r.below(30)) {
+                        let mut mid = bad.clone();
+                        ev.sp.interpolate(&bad, &good, 0.5, &mut mid);
+                        let fm = K::flat(&mid);
+                        if ev.valid(&mid, &fm) { good = mid } else { bad = mid }
+                    }
+                    Some(K::flat(&bad))
+                }
+                // a valid state next to the goal (fewer hops from there than from the first start)
+                _ => {
+                    let mut g = kit.unflat(&sc.problem.goal.centre);
+                    if let Some(v) = valid.first() {
+                        let mut out = g.clone();
+                        ev.sp.interpolate(&g, &kit.unflat(v), 0.1, &mut out);
+                        g = out;
+                    }
+                    let f = K::flat(&g);
+                    if ev.valid(&g, &f) { Some(f) } else { None }
+                }
+            };
+            if let Some(e) = e {
+                b.count(&format!("extra_start_states[{}]", ["valid", "invalid", "marginally-invalid", "valid-near-goal"][kind]), 1);
+                sc.problem.extra_starts.push(e);
+            }
+        }
+        if !sc.problem.extra_starts.is_empty() {
+            sc.problem.tags.push("several-start-states".into());
+            b.count("cases_with_several_start_states", 1);
+        }
+    });
 }
 
 /// Start states in unusual but legitimate representations. C04 / C05: an angle stored several
@@ -566,7 +627,7 @@ fn twins(prop: PathProp, ctx: &Ctx, tier: Tier, seed: u64) {
             // C02 is about the end points: half of its cases have no obstacle, so that twins of
             // the start become tree nodes / roadmap milestones
             let world = if prop == PathProp::C02 && r.bool(0.5) { World::default() } else { world };
-            let problem = Problem { spec: spec.clone(), world, start, goal, infeasible: None, tags: vec![format!("twin:{label}")] };
+            let problem = Problem { spec: spec.clone(), world, start, goal, infeasible: None, tags: vec![format!("twin:{label}")], extra_starts: vec![] };
             let mut params = gen_params(&mut r, &spec, planner, false);
             params.goal_bias = *r.pick(&[0.3, 0.5, 0.9]);
             let ops = if planner == PKind::Prm { vec![Op::Setup(0), Op::Construct, Op::Solve(10)] } else { vec![Op::Setup(0), Op::Solve(12 + r.below(30) as u64)] };
